@@ -236,7 +236,7 @@ func init() {
 func init() {
 	addSpec(&propSpec{
 		ID:          "C07",
-		Rule:        "inputs: random bytes (with and without a plausible magic/header), every structural bit flip and 150 seeded mutants of each seed frame (re-used from C05 without an oracle), 10 families of grammar-built frames with hostile fields (block size 2^31-1, stored 2^31-1, content sizes 2^64-1 / 2^63-1 / 2^62 / 2^40 / 2^32 / 2^30, block just above the maximum, gigantic literal / match lengths, skippable length 2^32-1, legacy oversized blocks, 5000 empty blocks), first-word sweep (all 256 words 0x184D2Axx, every 1- and 2-bit neighbour of the magics, seeded random words), skippable frames in front of valid frames (all 16 magics, lengths 0..70000), and streamed repetitions of one field 10M (thorough 25M) times: legacy magic, skippable frames, empty stored blocks, one-byte blocks. Each with concurrency 1 and 4 through Read and WriteTo (destinations rotate: bare io.Writer, a writer with the optional Grow method that records what it is asked to reserve, a real bytes.Buffer), in child processes. Monitors: panic, child death (stack overflow, fault), runaway loop / no progress, deadlock state, allocation profile (no allocation made directly by library code, and no Grow reservation it asks a destination for, larger than 2 x the block maximum the input declares + 256 KiB), goroutine stack growth (<= 64 MiB), peak RSS as an observation, ErrInvalidFrame for non-magics, exact skipping for the 16 skippable magics. A cell is (input family, outcome, concurrency, read mode).",
+		Rule:        "inputs: random bytes (with and without a plausible magic/header), every structural bit flip and 150 seeded mutants of each seed frame (re-used from C05 without an oracle), 10 families of grammar-built frames with hostile fields (block size 2^31-1, stored 2^31-1, content sizes 2^64-1 / 2^63-1 / 2^62 / 2^40 / 2^32 / 2^30, block just above the maximum, gigantic literal / match lengths, skippable length 2^32-1, legacy oversized blocks, 5000 empty blocks), first-word sweep (all 256 words 0x184D2Axx, every 1- and 2-bit neighbour of the magics, seeded random words), skippable frames in front of valid frames (all 16 magics, lengths 0..70000; also read from a pipe, from a regular file and from a regular file cut inside the user data), and streamed repetitions of one field 10M (thorough 25M) times: legacy magic, skippable frames, empty stored blocks, one-byte blocks. Each with concurrency 1 and 4 through Read and WriteTo (destinations rotate: bare io.Writer, a writer with the optional Grow method that records what it is asked to reserve, a real bytes.Buffer), in child processes. Monitors: panic, child death (stack overflow, fault), runaway loop / no progress, deadlock state, allocation profile (no allocation made directly by library code, and no Grow reservation it asks a destination for, larger than 2 x the block maximum the input declares + 256 KiB), goroutine stack growth (<= 64 MiB), peak RSS as an observation, ErrInvalidFrame for non-magics, exact skipping for the 16 skippable magics. A cell is (input family, outcome, concurrency, read mode).",
 		Assumptions: append([]string{"'never blocks forever' is decided as bounded progress: sources are finite and budgeted; a hang shows up as the runtime's deadlock report, a budget overrun or a watchdog dump in a deadlock state", "memory monitor: the runtime allocation profile at sampling rate 1 attributes every heap allocation to its call stack; only allocations whose first non-runtime frame is library code are judged (a caller-supplied writer growing its buffer is not the library); goroutine stacks are watched through MemStats.StackInuse"}, baseAssumptions...),
 		Watchdog:    func(tier string) int { return 1800 },
 		Require: func(rs *runState) string {
@@ -254,7 +254,7 @@ func init() {
 func init() {
 	addSpec(&propSpec{
 		ID:          "C17",
-		Rule:        "call histories: ALL sequences of length <= 4 (thorough 5) over the Writer alphabet {Apply(BlockChecksum|BlockSize256K|Size with a zero header checksum byte|NoChecksum|LegacyOn|LegacyOff), Write(0|100|65536|70000), ReadFrom(1000), Flush, Close, Reset(same sink|new sink)} on a sequential and on a concurrent (4) Writer, and over the Reader alphabet {Apply(Concurrency), Read(0|100|70000), ReadUntilEOF, WriteTo, Size, Reset(onto frame A | legacy frame B | block-checksummed frame C | dependent-block frame D | frames E, F that are invalid on their own because their first match reaches before the start of the frame)} on sequential and concurrent Readers with and without trailing bytes after the frame; plus 3000 (thorough 40000) seeded random sequences of length 5..12 each. Each call runs under the in-process monitor (deadlock: every goroutine inside the library parked, stable over five snapshots; runaway loop: more than 200000 hook sites passed by one call), with budgeted sinks and sources; every history ends with an unjudged Close / drain. The model asserts only the property's clauses: no hang/panic; a nil Close => the bytes since the last Reset are one valid frame with the accepted data once and in order and the options of the epoch; Apply refused while writing; an epoch after Reset equals a fresh object (differential replay of return values and bytes); writes after Close fail without output, second Close emits nothing; after end of stream Read = (0, io.EOF) without consuming the source; after Flush on a sequential Writer the sink decodes to everything written. A cell is (object, mode, abstract shape of the sequence).",
+		Rule:        "call histories: ALL sequences of length <= 4 (thorough 5) over the Writer alphabet {Apply(BlockChecksum|BlockSize256K|Size with a zero header checksum byte|NoChecksum|LegacyOn|LegacyOff), Write(0|100|65536|70000), ReadFrom(1000), Flush, Close, Reset(same sink|new sink|a sink that fails from its second call on)} on a sequential and on a concurrent (4) Writer, and over the Reader alphabet {Apply(Concurrency), Read(0|100|70000), ReadUntilEOF, WriteTo, Size, Reset(onto frame A | legacy frame B | block-checksummed frame C | dependent-block frame D | frames E, F that are invalid on their own because their first match reaches before the start of the frame)} on sequential and concurrent Readers with and without trailing bytes after the frame; plus 3000 (thorough 40000) seeded random sequences of length 5..12 each. Each call runs under the in-process monitor (deadlock: every goroutine inside the library parked, stable over five snapshots; runaway loop: more than 200000 hook sites passed by one call), with budgeted sinks and sources; every history ends with an unjudged Close / drain. The model asserts only the property's clauses: no hang/panic; a nil Close => the bytes since the last Reset are one valid frame with the accepted data once and in order and the options of the epoch; Apply refused while writing; an epoch after Reset equals a fresh object (differential replay of return values and bytes); writes after Close fail without output, second Close emits nothing; after end of stream Read = (0, io.EOF) without consuming the source; after Flush on a sequential Writer the sink decodes to everything written. A cell is (object, mode, abstract shape of the sequence).",
 		Assumptions: append([]string{"calls the property is silent about (ReadFrom after Write, WriteTo after a partial Read, ...) may return anything except a hang or a panic"}, baseAssumptions...),
 		MaxDeaths:   100000,
 		Watchdog:    func(tier string) int { return 600 },
@@ -318,7 +318,7 @@ func init() {
 func init() {
 	addSpec(&propSpec{
 		ID:          "C08",
-		Rule:        "built with -race and the verif hooks on (block pool replaced by a quarantining pool that poisons released buffers with 0xDB and verifies the poison when they are handed out again, LIFO or FIFO; seeded scheduling perturbation at 10 yield sites between the pipeline's critical sections in three modes: jitter, one site slowed for the whole run, none; event log). Writer: 7 call scripts {Write partitions, Write+Flush mid-stream, ReadFrom, Close->Reset->reuse, Reset without Close, sink failing at a seeded call, slow sink} x concurrency {2,3,4,16} x block counts {0,1,2,c-1,c,c+1,4c} (pairwise distinct 64 KiB blocks, so a reorder shows in the bytes) x 6 (thorough 120) perturbation seeds, content / block checksums, legacy frames and content sizes (one with a zero header checksum byte) varied, OnBlockDone installed; Reader: concurrency {2,4,16} x {Read small, Read >= block, WriteTo} x {valid frame, a flipped payload bit (early decoding error), source failing at a seeded call, an empty block then a corrupted block, Reset onto another frame while the pipeline of the first is still running} x 2 frame sizes x seeds. Monitors: race detector reports with a library frame (logs parsed, de-duplicated); poison integrity (write after release), poison in output (read after release), double release; sink bytes equal to the sequential Writer's for the same calls; event log FIFO and exactly-once; in-process deadlock monitor (every library goroutine parked); goroutine census after Close / after EOF or error (parked leftovers = leak). A cell is (object, script/condition, concurrency, block count, perturbation mode) or a distinct interleaving (hash of the hook event order).",
+		Rule:        "built with -race and the verif hooks on (block pool replaced by a quarantining pool that poisons released buffers with 0xDB and verifies the poison when they are handed out again, LIFO or FIFO; seeded scheduling perturbation at 10 yield sites between the pipeline's critical sections in three modes: jitter, one site slowed for the whole run, none; event log). Writer: 7 call scripts {Write partitions, Write+Flush mid-stream, ReadFrom, Close->Reset->reuse, Reset without Close, sink failing at a seeded call, slow sink} x concurrency {2,3,4,16} x block counts {0,1,2,c-1,c,c+1,4c} (pairwise distinct 64 KiB blocks, so a reorder shows in the bytes) x 6 (thorough 120) perturbation seeds, content / block checksums, legacy frames and content sizes (one with a zero header checksum byte) varied, OnBlockDone installed; Reader: concurrency {2,4,16} x {Read small, Read >= block, WriteTo} x {valid frame, a flipped payload bit (early decoding error), source failing at a seeded call, an empty block then a corrupted block, Reset onto another frame while the pipeline of the first is still running, Reset after a WriteTo whose destination failed mid-stream} x 2 frame sizes x seeds. Monitors: race detector reports with a library frame (logs parsed, de-duplicated); poison integrity (write after release), poison in output (read after release), double release; sink bytes equal to the sequential Writer's for the same calls; event log FIFO and exactly-once; in-process deadlock monitor (every library goroutine parked); goroutine census after Close / after EOF or error (parked leftovers = leak). A cell is (object, script/condition, concurrency, block count, perturbation mode) or a distinct interleaving (hash of the hook event order).",
 		Assumptions: append([]string{"interleavings are sampled under perturbation, not enumerated; the evidence reports how many distinct ones were observed", "goroutines left behind when the caller abandons a Reader mid-stream are outside the statement and not judged"}, baseAssumptions...),
 		Variants:    func(string) []string { return []string{"race"} },
 		Watchdog:    func(tier string) int { return 3000 },
